@@ -47,7 +47,7 @@ func genC08(g *Gen, tier string, idx int) *wire.Scenario {
 	env := wire.Env{Mode: mode, Prompt: "> ", W: Pick(g, []int{30, 80, 120}), H: 24, NoDefaultHistory: true}
 	x := c08X{Size: -1}
 	if g.P(45) {
-		x.Size = Pick(g, []int{0, 1, 2, 5, 500})
+		x.Size = Pick(g, []int{0, 1, 2, 5, 500, 600})
 		env.Inputrc = append(env.Inputrc, fmt.Sprintf("set history-size %d", x.Size))
 	}
 	// the typed line
@@ -74,7 +74,17 @@ func genC08(g *Gen, tier string, idx int) *wire.Scenario {
 	for i := 0; i < ns; i++ {
 		h := wire.HistSrc{Kind: Pick(g, kinds), Name: fmt.Sprintf("src%d", i)}
 		n := Pick(g, []int{0, 1, 2, 3, 5, 8})
+		big := i == 0 && idx%16 == 11
+		if big {
+			// a long-lived history: around the sizes a limit is typically set to
+			n = Pick(g, []int{499, 500, 501, 520, 1000})
+			h.Kind = Pick(g, []string{"memory", "file"})
+		}
 		for j := 0; j < n; j++ {
+			if big && j < n-8 {
+				h.Entries = append(h.Entries, fmt.Sprintf("cmd %d", j))
+				continue
+			}
 			h.Entries = append(h.Entries, strings.ReplaceAll(g.histLine(false), "\n", " "))
 		}
 		if n > 0 {
@@ -325,7 +335,157 @@ var walkCmds = []string{"previous-history", "next-history", "beginning-of-histor
 var searchCmds = []string{"history-search-backward", "history-search-forward", "history-substring-search-backward",
 	"history-substring-search-forward", "beginning-of-buffer-or-history", "end-of-buffer-or-history", "up-line-or-search"}
 
+// genC09Isearch: one incremental search session from the line being typed, with its search text edited
+// (characters added and erased, possibly down to nothing), left by Return, by a key that is not a search
+// key, or by abort, and the line accepted. Judged on the line Readline returns.
+func genC09Isearch(g *Gen, idx int) *wire.Scenario {
+	sc := &wire.Scenario{Prop: "C09", Family: "isearch-session"}
+	env := wire.Env{Mode: "emacs", Prompt: "> ", W: 80, H: 30, NoDefaultHistory: true}
+	pool := []string{"git status", "git commit", "echo one", "make foo", "git", "echo two words", "ls", "make", "cat gitx"}
+	var es []string
+	for i := 0; i < g.Range(1, 6); i++ {
+		es = append(es, Pick(g, pool))
+	}
+	env.History = []wire.HistSrc{{Kind: Pick(g, []string{"memory", "file"}), Name: "h0", Entries: es}}
+	env.Binds = append(env.Binds, g.Cat.Extra...)
+	sc.Env = env
+	e := Pick(g, es)
+	typed := ""
+	switch g.N(4) {
+	case 0:
+	case 1:
+		typed = g.word(false, 3)
+	default:
+		typed = e[:g.Range(1, len(e))] // the beginning of an entry
+	}
+	typed = strings.TrimSpace(strings.ReplaceAll(typed, "\n", " "))
+	for _, r := range typed {
+		sc.Script = append(sc.Script, tok(string(r), "typed"))
+	}
+	sc.Script = append(sc.Script, tok(Pick(g, []string{"\x12", "\x12", "\x13"}), "isearch-start"))
+	e = Pick(g, es)
+	from := g.N(len(e))
+	pat := e[from:]
+	if len(pat) > 3 {
+		pat = pat[:g.Range(1, 3)]
+	}
+	if g.P(15) {
+		pat = Pick(g, []string{"zq", "x", "tu"})
+	}
+	for _, r := range pat {
+		sc.Script = append(sc.Script, tok(string(r), "isearch-char"))
+	}
+	if g.P(20) {
+		sc.Script = append(sc.Script, tok(Pick(g, []string{"\x12", "\x13"}), "isearch-again"))
+	}
+	switch g.N(4) {
+	case 0: // erased completely
+		for range pat {
+			sc.Script = append(sc.Script, tok("\x7f", "isearch-erase"))
+		}
+	case 1:
+		for i := 0; i < g.N(len(pat)+1); i++ {
+			sc.Script = append(sc.Script, tok("\x7f", "isearch-erase"))
+		}
+		if g.P(40) {
+			sc.Script = append(sc.Script, tok(string(Pick(g, []rune("gmte "))), "isearch-char"))
+		}
+	case 2:
+		if g.P(50) {
+			sc.Script = append(sc.Script, tok("\x15", "isearch-erase-all"))
+		}
+	}
+	switch g.N(4) {
+	case 0:
+		sc.Script = append(sc.Script, tok("\x07", "isearch-abort"))
+	case 1:
+		sc.Script = append(sc.Script, tok("\x05", "isearch-leave"))
+	}
+	sc.Script = append(sc.Script, tok("\r", "accept-line"))
+	sc.X = mustJSON(c09X{Typed: typed})
+	sc.Plan = wire.Plan{Policy: "canonical", Class: "S0"}
+	if idx%4 == 1 {
+		sc.Plan = wire.Plan{Policy: "seeded", Class: "S1", Seed: g.Seed()}
+	}
+	return sc
+}
+
+// judgeC09Isearch: the returned line is the text that was being typed, or a stored entry that contains the
+// search text as it was when the search was left; after an abort, or with no search text left, the former.
+func judgeC09Isearch(res *wire.Result, sc *wire.Scenario, out *sim.Outcome, entries []string) *wire.Result {
+	typed, pat := "", []rune{}
+	started, aborted, left := false, false, false
+	for i, t := range sc.Script {
+		if started && strings.HasPrefix(t.Cmd, "isearch-") {
+			// the model follows a session that is still open: a key that closed it on its own
+			// (a second search key does, in some states) makes the rest ordinary editing
+			if w := waitAfter(out, i); w == nil || w.Local != "isearch" {
+				res.Counters["skipped:isearch_session_closed_early"]++
+				return res
+			}
+		}
+		switch t.Cmd {
+		case "typed":
+			if started {
+				return res // a script the minimiser broke
+			}
+			typed += string(t.B)
+		case "isearch-start":
+			if started {
+				return res
+			}
+			started = true
+		case "isearch-char":
+			if !started || aborted || left {
+				return res
+			}
+			pat = append(pat, []rune(string(t.B))...)
+		case "isearch-erase":
+			if len(pat) > 0 {
+				pat = pat[:len(pat)-1]
+			}
+		case "isearch-erase-all":
+			pat = pat[:0]
+		case "isearch-abort":
+			aborted = true
+		case "isearch-leave":
+			left = true
+		}
+	}
+	if !started || len(out.Returns) == 0 || out.Returns[0].Err != "" {
+		return res
+	}
+	got := out.Returns[0].Line
+	res.Counters["checked:isearch-session"]++
+	how := "accepted"
+	switch {
+	case aborted:
+		how = "aborted"
+	case left:
+		how = "left-by-another-key"
+	}
+	if got == typed {
+		return res
+	}
+	// (an empty search text matches every entry)
+	for _, e := range entries {
+		if e == got && strings.Contains(strings.ToLower(e), strings.ToLower(string(pat))) {
+			return res
+		}
+	}
+	state := "with-search-text"
+	if len(pat) == 0 {
+		state = "search-text-empty"
+	}
+	return violation(res, "MISMATCH", "C09.buffer-is-typed-text-or-stored-entry", "isearch-session:"+how+":"+state,
+		fmt.Sprintf("typed %q, incremental search (search text at the end %q, %s): Readline returned %q, which is neither the text being typed nor a stored entry containing the search text; history (oldest first) %q",
+			typed, string(pat), how, got, entries))
+}
+
 func genC09(g *Gen, tier string, idx int) *wire.Scenario {
+	if idx%10 == 9 {
+		return genC09Isearch(g, idx)
+	}
 	mode := Pick(g, []string{"emacs", "emacs", "vi"})
 	sc := &wire.Scenario{Prop: "C09", Family: "history"}
 	env := wire.Env{Mode: mode, Prompt: "> ", W: Pick(g, []int{40, 80, 120}), H: 30, NoDefaultHistory: true}
@@ -504,7 +664,7 @@ func execC09(x *Ctx, sc *wire.Scenario) *wire.Result {
 		return false
 	}
 	// (c) non-destructive
-	if !faulty && strings.Join(beforeList, "\x00") != strings.Join(afterList, "\x00") {
+	if !faulty && sc.Family != "isearch-session" && strings.Join(beforeList, "\x00") != strings.Join(afterList, "\x00") {
 		return violation(res, "MISMATCH", "C09.non-destructive", "source-modified",
 			fmt.Sprintf("history source changed during navigation: before %q after %q", beforeList, afterList))
 	}
@@ -518,6 +678,9 @@ func execC09(x *Ctx, sc *wire.Scenario) *wire.Result {
 	// consecutive duplicates when it is filled)
 	entries = beforeList
 	n = len(entries)
+	if sc.Family == "isearch-session" {
+		return judgeC09Isearch(res, sc, out, entries)
+	}
 	typedN := len([]rune(xx.Typed))
 	pos := -1 // -1 = in-progress line, 0 = newest ... n-1 = oldest
 	exact := true
